@@ -230,12 +230,13 @@ func (s *state) getParentBlock(cur *parse.BlockNode) *parse.BlockNode {
 // it runs the block is the current one (for parent()) and the template that
 // defines it is the current template, just like a block rendered in place.
 func (s *state) renderBlock(blk *parse.BlockNode) (string, error) {
-	pout, pcur, pname := s.out, s.current, s.name
+	pout, pcur, pname, poutside := s.out, s.current, s.name, s.outside
 	defer func() {
-		s.out, s.current, s.name = pout, pcur, pname
+		s.out, s.current, s.name, s.outside = pout, pcur, pname, poutside
 	}()
 	buf := &bytes.Buffer{}
 	s.out = buf
+	s.outside = false // The blocks nested in this one are part of its value.
 	s.current = blk
 	if blk.Origin != "" {
 		s.name = blk.Origin
@@ -540,12 +541,13 @@ func (s *state) walkSetNode(node *parse.SetNode) error {
 		// when setting a variable with a body, it may contain any number
 		// of any type of node or expression. because of this, the value is
 		// always converted to a string which is stored in the variable name.
-		prevBuf := s.out
+		prevBuf, outside := s.out, s.outside
 		defer func() {
-			s.out = prevBuf
+			s.out, s.outside = prevBuf, outside
 		}()
 		buf := &bytes.Buffer{}
 		s.out = buf
+		s.outside = false // A block written inside the capture is captured.
 		err := s.walk(node.X)
 		if err != nil {
 			return err
